@@ -420,6 +420,8 @@ def gen_cases(seed, n, focus, max_tasks=7):
             cases[i] = {"family": "e1-fan", "tasks": gen.dump(fan + [top]), "history": [{"target": "//:top", "jobs": rng.choice([3, 4, 6]), "again": False, "stop_early": False, "script": {}, "strategy": "blocked-fifo", "seed": rng.randrange(1 << 30)}],
                         "e1_policy_forced": "stop-batch"}
     for c in cases:
+        for inv in c["history"]:
+            inv.pop("retype", None)  # E1 runs one fixed set of COND files
         c["e1_policy"] = c.pop("e1_policy_forced", None) or rng.choice(POLICIES)
         if rng.random() < 0.3:
             # cond started from inside another Conductor task (nested invocation): COND_* already set
